@@ -500,7 +500,8 @@ def _c03_job(job):
         st, pe, res = "ok", False, EMPTY_RES
         try:
             with contextlib.redirect_stdout(io.StringIO()):
-                tg = textgrid.openTextgrid(fn, incl, reportingMode="silence", duplicateNamesMode=dup)
+                # a conformant file opens in every reporting mode (nothing to report: its tiers lie inside its span)
+                tg = textgrid.openTextgrid(fn, incl, reportingMode=("silence", "warning", "error")[eid % 3], duplicateNamesMode=dup)
             res = res_doc(tg, idof)
         except Exception as ex:  # noqa
             st = type(ex).__name__
